@@ -97,7 +97,14 @@ def _compile_rules(rules: Iterable[tuple[str, str]]) -> Pattern[str]:
     return re.compile(pattern, re.DOTALL)
 
 
-def _tokenize_template(source: str, rules: Pattern[str]) -> Iterator[Token]:  # noqa: PLR0912, PLR0915
+def _tokenize_template(  # noqa: PLR0912, PLR0915
+    source: str,
+    rules: Pattern[str],
+    tag_start_string: str = r"{%",
+    tag_end_string: str = r"%}",
+    statement_start_string: str = r"{{",
+    statement_end_string: str = r"}}",
+) -> Iterator[Token]:
     lstrip = False
     comment_index = 0
     comment_text: list[str] = []
@@ -207,9 +214,9 @@ def _tokenize_template(source: str, rules: Pattern[str]) -> Iterator[Token]:  # 
             if not value:
                 continue
 
-            if value.startswith(r"{{"):
+            if value.startswith(statement_start_string):
                 raise LiquidSyntaxError(
-                    "expected '}}', found end of file",
+                    f"expected '{statement_end_string}', found end of file",
                     token=Token(
                         TOKEN_EOF,
                         value=match.group(),
@@ -217,9 +224,9 @@ def _tokenize_template(source: str, rules: Pattern[str]) -> Iterator[Token]:  # 
                         source=source,
                     ),
                 )
-            if value.startswith(r"{%"):
+            if value.startswith(tag_start_string):
                 raise LiquidSyntaxError(
-                    "expected '%}', found end of file",
+                    f"expected '{tag_end_string}', found end of file",
                     token=Token(
                         TOKEN_EOF,
                         value=match.group(),
@@ -249,4 +256,11 @@ def get_lexer(
         comment_start_string,
         comment_end_string,
     )
-    return partial(_tokenize_template, rules=rules)
+    return partial(
+        _tokenize_template,
+        rules=rules,
+        tag_start_string=tag_start_string,
+        tag_end_string=tag_end_string,
+        statement_start_string=statement_start_string,
+        statement_end_string=statement_end_string,
+    )
